@@ -136,6 +136,23 @@ class PathState:
                 self.solver.add(c)
                 self.lenabs.add(c)
 
+    def proof_step(self, cond):
+        """A step of a proof in progress has just been recorded as an obligation: the rest of that proof may
+        rely on it.  It becomes a temporary hypothesis (a scope) that the caller removes when the proof of the
+        clause is complete (loops._call_pred), so that it never influences path feasibility, the vacuity guard or
+        other clauses -- if the step is in fact false, only its own obligation is affected."""
+        if isinstance(cond, bool):
+            t = z3.BoolVal(cond)
+        else:
+            t = cond.t if isinstance(cond, SBool) else cond
+        if z3.is_true(t):
+            return
+        self.scopes.append(t)
+        self._keep = getattr(self, '_keep', [])
+        self._keep.append(t)
+        if self.on_fact is not None:
+            self.on_fact(t)
+
     def axiom(self, t):
         """Add an instance of a universally valid fact: holds in every context, so it is not scoped."""
         self._add(t)
